@@ -145,8 +145,10 @@ def oracleSolve (U : Universe) (P : Problem) (cfg : String) (r : ImplSolve) (pri
         | none => []
     -- C11 / C10: asynchronous runs
     let known := (prior.filter (·.startsWith "C")).map (fun w => nat! (w.drop 1).toString)
+    -- (with a provider whose sort_candidates reads dependencies through the cache, `D` markers also record answers the
+    -- *provider* asked for; they do not imply requests of the solver, so the pending-set oracle does not apply)
     let c11 := if sync then [] else
-      (match c11Check U P r.events known with
+      (match (if cfgGet cfg "sortpeeks" == "1" then none else c11Check U P r.events known) with
        | some why => [s!"oracle-fail C11 not-issued: {why}"]
        | none => []) ++
       (if r.result == "panic" && (r.resultArg.splitOn "DEADLOCK").length > 1 then
@@ -274,7 +276,10 @@ def runSolve (lines : List String) : List String :=
                 let k := ((me.zip i.events).takeWhile (fun p => p.1 == p.2)).length
                 [s!"oracle-fail C10,C11 mdet-events: executor events differ at position {k}: implementation `{i.events.getD k "<end>"}` model `{me.getD k "<end>"}`"]
               else []
-            (mdetCompare U ms' o newLog (ms'.trace.reverse.map Resolvo.MDet.evLine) i ++ evs ++ chk, ms')
+            -- the model's ghost record of candidate requests is the `c<n>` entries of its own call log
+            let ghost := if (ms'.issuedCands.reverse.map (fun n => s!"c{n}")) == newLog.filter (fun w => w.startsWith "c") then []
+              else ["oracle-fail C09,C10 mdet-ghost: the model's structured record of get_candidates requests differs from its call log"]
+            (mdetCompare U ms' o newLog (ms'.trace.reverse.map Resolvo.MDet.evLine) i ++ evs ++ ghost ++ chk, ms')
           else ([], ms)
         -- C15 family: the spec-level expectation (two candidates of one package required => Unsolvable; one => solvable)
         let expect := (caseLines.find? (fun l => l.startsWith "expect ")).map (fun l => (l.drop 7).toString)
